@@ -31,6 +31,7 @@ func c18(c *Ctx) {
 					ident := c.R.Pick("ident", "i")
 					name := c.R.Pick("Real Name", "x", ":colon name")
 					var addr string
+					wantCaps := c.R.Bool()
 					track := c.R.Bool() // with state tracking on, the client's own record lives in the tracker: it must survive a reconnect too
 					sess, err := newSession(func(cfg *client.Config) {
 						cfg.Server = server
@@ -38,6 +39,9 @@ func c18(c *Ctx) {
 						cfg.Pass = pass
 						cfg.EnableCapabilityNegotiation = capNeg
 						cfg.Me.Nick, cfg.Me.Ident, cfg.Me.Name = nick, ident, name
+						if wantCaps { // a list of wanted capabilities is not the switch: only the flag says whether to negotiate
+							cfg.Capabilites = []string{"multi-prefix", "away-notify"}
+						}
 					}, func(cn *client.Conn) {
 						if track {
 							cn.EnableStateTracking()
@@ -49,7 +53,7 @@ func c18(c *Ctx) {
 						}
 						return "0"
 					}
-					desc := fmt.Sprintf("connect server=%q ssl=%v capneg=%v pass=%q nick=%q", server, ssl, capNeg, pass, nick)
+					desc := fmt.Sprintf("connect server=%q ssl=%v capneg=%v pass=%q nick=%q capabilities-listed=%v", server, ssl, capNeg, pass, nick, wantCaps)
 					rp := map[string]interface{}{"op": "connect", "server": server, "ssl": ssl, "capneg": capNeg, "pass": pass, "nick": nick, "ident": ident, "name": name}
 					if ssl {
 						// the TLS handshake cannot succeed on the in-memory link; only the dial address is observed
